@@ -542,6 +542,16 @@ NormObj(o) ==
   ELSE o
 Norm(o) == NormObj(o)
 
+(* version stamps blanked (recursively): a file is always re-stamped with the writing library's version *)
+RECURSIVE BlankVers(_)
+BlankMod(m) == IF m.kind = "none" THEN m ELSE
+  [m EXCEPT !.payload = CASE @.k = "meta" -> [@ EXCEPT !.project = BlankVers(@)]
+                          [] @.k = "sampler" -> [@ EXCEPT !.effect = IF @ = <<>> THEN @ ELSE <<BlankVers(@[1])>>]
+                          [] OTHER -> @]
+BlankVers(o) == IF o.kind = "project" THEN [o EXCEPT !.proj.vers = <<0, 0, 0, 0>>, !.modules = [i \in 1..Len(@) |-> BlankMod(@[i])]]
+                ELSE IF o.kind = "synth" THEN [o EXCEPT !.vers = <<0, 0, 0, 0>>, !.module = IF @ = <<>> THEN @ ELSE <<BlankMod(@[1])>>]
+                ELSE o
+
 (* ---- where two abstract objects differ: <<path, expected, observed>>, <<>> if equal *)
 RECURSIVE DiffObj(_, _)
 FieldDiff(a, b) == IF DOMAIN a # DOMAIN b THEN "<fields>" ELSE
